@@ -173,7 +173,7 @@ class HeapLV(LV):
                 if isrid:
                     ex.facts.append(z3.ULT(z3.Select(z3.Array("H_" + k, RS, s), self.oid), rid(FRESH_BASE)))
         v, _ = unflatten(self.typ, terms)
-        if not ex.spec:
+        if True:
             try:
                 ex.type_facts(st, v, self.typ, param=False)
             except Unsupported:
